@@ -214,42 +214,43 @@ type vfDelivery struct {
 }
 
 type vfGW struct {
-	x         *vfExec
-	cfg       *vfGWCfg
-	w         *vfWorld
-	n         *vfNode
-	fakes     map[string]*vfFake
-	order     []string // peer labels in config order
-	pcfg      map[string]vfPeerCfg
-	conn      map[string]bool
-	gated     map[string]bool
-	appMu     sync.Mutex
-	app       map[peer.ID]float64
-	topics    map[string]*Topic
-	subs      map[string][]*Subscription // live subscriptions per topic
-	relays    map[string][]RelayCancelFunc
-	nsubs     int
-	msgs      map[string]vfMsgSpec
-	trace     *vfMemTracer
-	t0        time.Time
-	wire      map[string][]vfRecv // frames received by each fake during the current step
-	deliv     []vfDelivery        // deliveries during the current step
-	lastPts   []vfChoicePoint
-	lpubErr   map[string]string
-	localID   map[string]string // message ID of a locally published message -> its label
-	lmu       sync.Mutex
-	vmu       sync.Mutex
-	valCalls  map[string]int // "validator|message" -> invocations
-	valPend   []*vfValInv
-	valLog    []string
-	held      map[string]bool // NewStream to this peer is blocked
-	meta      *vfMetaStore
-	ymu       sync.Mutex
-	yArmed    map[string]bool          // "point|peer": the next goroutine arriving there is held
-	yParked   map[string]chan struct{} // goroutines currently held
-	yCount    map[string]int           // parks per point (coverage)
-	cancelled []*Subscription
-	closeErr  map[string]string
+	unorderedStep bool // the frames of this step are rendered in sorted order (see wireLog)
+	x             *vfExec
+	cfg           *vfGWCfg
+	w             *vfWorld
+	n             *vfNode
+	fakes         map[string]*vfFake
+	order         []string // peer labels in config order
+	pcfg          map[string]vfPeerCfg
+	conn          map[string]bool
+	gated         map[string]bool
+	appMu         sync.Mutex
+	app           map[peer.ID]float64
+	topics        map[string]*Topic
+	subs          map[string][]*Subscription // live subscriptions per topic
+	relays        map[string][]RelayCancelFunc
+	nsubs         int
+	msgs          map[string]vfMsgSpec
+	trace         *vfMemTracer
+	t0            time.Time
+	wire          map[string][]vfRecv // frames received by each fake during the current step
+	deliv         []vfDelivery        // deliveries during the current step
+	lastPts       []vfChoicePoint
+	lpubErr       map[string]string
+	localID       map[string]string // message ID of a locally published message -> its label
+	lmu           sync.Mutex
+	vmu           sync.Mutex
+	valCalls      map[string]int // "validator|message" -> invocations
+	valPend       []*vfValInv
+	valLog        []string
+	held          map[string]bool // NewStream to this peer is blocked
+	meta          *vfMetaStore
+	ymu           sync.Mutex
+	yArmed        map[string]bool          // "point|peer": the next goroutine arriving there is held
+	yParked       map[string]chan struct{} // goroutines currently held
+	yCount        map[string]int           // parks per point (coverage)
+	cancelled     []*Subscription
+	closeErr      map[string]string
 }
 
 type vfMemTracer struct {
@@ -753,6 +754,7 @@ func (g *vfGW) idLabel(id string) string {
 }
 
 func (g *vfGW) clearStep() {
+	g.unorderedStep = false
 	for _, name := range g.order {
 		g.fakes[name].take()
 	}
@@ -910,6 +912,20 @@ func (g *vfGW) apply(evFull string) {
 		if err := g.topic(arg(1)).AddToBatch(context.Background(), &b, data, popts...); err != nil {
 			g.lpubErr[arg(2)] = err.Error()
 		} else if err := g.n.ps.PublishBatch(&b); err != nil {
+			g.lpubErr[arg(2)] = err.Error()
+		}
+	case "lpubbatch2":
+		// lpubbatch2:T:L1:U:L2 -- ONE batch with a message for T and a message for U (different recipient sets)
+		g.unorderedStep = true
+		var b MessageBatch
+		for _, tl := range [][2]string{{arg(1), arg(2)}, {arg(3), arg(4)}} {
+			data := make([]byte, 4)
+			copy(data, tl[1])
+			if err := g.topic(tl[0]).AddToBatch(context.Background(), &b, data); err != nil {
+				g.lpubErr[tl[1]] = err.Error()
+			}
+		}
+		if err := g.n.ps.PublishBatch(&b); err != nil {
 			g.lpubErr[arg(2)] = err.Error()
 		}
 	case "ihave":
@@ -1295,6 +1311,11 @@ func (g *vfGW) wireLog() string {
 		var l []string
 		for _, r := range rs {
 			l = append(l, vfRenderRPC(r.rpc, g.midFn()))
+		}
+		if g.unorderedStep {
+			// (the messages of one batch are handed to the queues in the order of a map iteration in the batch
+			// scheduler: which of them a peer gets first is not a fact about the step)
+			sort.Strings(l)
 		}
 		parts = append(parts, name+"<"+strings.Join(l, " | ")+">")
 	}
